@@ -9,18 +9,28 @@ import (
 // testing/synctest treats as durably blocked, so a task may be descheduled while it
 // holds the lock and contenders are simply not runnable. Lock is a scheduling point.
 type Mutex struct {
-	ch atomic.Pointer[chan struct{}]
+	st atomic.Pointer[mutexState]
+}
+
+// mutexState: the channel belongs to the bubble (run) it was made in. A package-level mutex of the program outlives
+// a run; the next run gets a fresh, unlocked channel (a channel of another bubble must not be touched, and a task
+// that was killed while holding the lock must not keep it locked for the following runs).
+type mutexState struct {
+	c   chan struct{}
+	sim *Sim
 }
 
 func (m *Mutex) c() chan struct{} {
-	if p := m.ch.Load(); p != nil {
-		return *p
+	s := cur.Load()
+	st := m.st.Load()
+	if st != nil && st.sim == s {
+		return st.c
 	}
-	c := make(chan struct{}, 1)
-	if m.ch.CompareAndSwap(nil, &c) {
-		return c
+	n := &mutexState{c: make(chan struct{}, 1), sim: s}
+	if m.st.CompareAndSwap(st, n) {
+		return n.c
 	}
-	return *m.ch.Load()
+	return m.st.Load().c
 }
 
 func (m *Mutex) Lock() {
